@@ -7,6 +7,7 @@ import (
 	publictypes "lunar/engine/streams/public-types"
 	"lunar/engine/streams/resources"
 	"lunar/engine/utils"
+	"lunar/toolkit-core/verifhook"
 
 	"github.com/rs/zerolog/log"
 )
@@ -90,6 +91,9 @@ func (fb *flowBuilder) buildFlow(flowRep internaltypes.FlowRepI) error {
 		flowRep.GetName(),
 		flowRep.GetFilter().GetURL(),
 	)
+	if verifhook.Enabled {
+		verifhook.Emit("flow-added", flowRep.GetName())
+	}
 	if err := fb.filterTree.AddFlow(flow); err != nil {
 		return fmt.Errorf("failed to add flow %s to filter tree: %w", flowRep.GetName(), err)
 	}
